@@ -644,7 +644,7 @@ def build(repo, trace):
     inj.spec('TileSizesRef::index', 'r: &usize', '\n        requires i < self.0@.len()\n        ensures *r == self.0@[i as int]\n')
     inj.spec('TileSizesRef::get', 'r: Option<usize>', '\n        ensures i < self.0@.len() ==> r == Some(self.0@[i as int]), i >= self.0@.len() ==> r is None\n')
     inj.spec('TileSizesRef::pixel_offset', 'r: usize', '\n        requires self.0@.len() >= 1, self.0@[0] >= 1, self.0@[0] * self.0@[0] <= usize::MAX\n        ensures r == (pos.x % self.0@[0]) + (pos.y % self.0@[0]) * self.0@[0]\n')
-    inj.proof('TileSizesRef::pixel_offset', 're:let y = pos\\.y % self\\.0\\[0\\];',
+    inj.proof('TileSizesRef::pixel_offset', 're:let y = pos\\.y % [^;]*;',
               '        proof { assert(y * self.0@[0] <= (self.0@[0] - 1) * self.0@[0]) by (nonlinear_arith) requires 0 <= y < self.0@[0]; assert((self.0@[0] - 1) * self.0@[0] + self.0@[0] == self.0@[0] * self.0@[0]) by (nonlinear_arith); }')
     obls = [Obligation('raster::Worker::render_tile_recurse', 'raster', 'Worker::render_tile_recurse', props=PROPS),
             Obligation('raster::Worker::render_tile_pixels', 'raster', 'Worker::render_tile_pixels', props=PROPS)]
